@@ -124,7 +124,7 @@ def feedLoop : List Member → Nat → Bytes × Nat × Nat
     if b.length ≤ rem then
       let r := feedLoop rest (rem - b.length)
       (b ++ r.1, r.2.1 + 1, r.2.2)
-    else ([], 0, rem)
+    else ([], 0, rem - E.codec.failUse m rem)
 
 /-- `Foca::send_message` -/
 def sendMessage (dst : Id) (msg : Msg) : M Unit := do
